@@ -1,2 +1,34 @@
 """Recognisers for the findings listed in KNOWN_FINDINGS.txt (see findings.py)."""
 from .findings import recogniser  # noqa: F401
+from . import ref
+
+
+def _strip_surr(s):
+    return "".join(ch for ch in s if not 0xD800 <= ord(ch) <= 0xDFFF)
+
+
+def _surr_in_window(s):
+    for i, ch in enumerate(s):
+        if ch == "%":
+            for c2 in s[i + 1:i + 3]:
+                if 0xD800 <= ord(c2) <= 0xDFFF:
+                    return True
+    return False
+
+
+@recogniser("KF-SURR-ESC", "C05")
+def kf_surr_esc(f):
+    """pure-Python quoter drops lone surrogates *before* scanning for escapes, the compiled one after:
+    '%' + surrogate + hex digits is an escape for py and a stray '%' for c."""
+    case = f["case"]
+    obs = f["observed"]
+    if f["clause"] == "py and c quoter disagree":
+        cfg, s = case["cfg"], case["s"]
+        if cfg.startswith("internal:"):
+            kw = {"internal:Q": {}, "internal:QS": {"qs": True}}[cfg]
+        else:
+            kw = ref.QUOTER_CONFIGS.get(cfg)
+        if kw is None or not kw.get("requote", True) or not isinstance(s, str) or not _surr_in_window(s):
+            return False
+        return obs["py"] == ("ok", ref.quote(_strip_surr(s), **kw)) and obs["c"] == ("ok", ref.quote(s, **kw))
+    return False
